@@ -1,0 +1,55 @@
+//go:build verif
+
+package webrtc
+
+import (
+	"context"
+
+	"github.com/aperturerobotics/bifrost/crypto"
+	"github.com/aperturerobotics/bifrost/peer"
+	"github.com/aperturerobotics/bifrost/transport"
+	"github.com/pion/datachannel"
+	"github.com/sirupsen/logrus"
+)
+
+// VerifIsOfferer exposes the (unexported) offerer role decision.
+func VerifIsOfferer(a, b string) bool {
+	return isOfferer(a, b)
+}
+
+// Verif role selectors for VerifExecuteLink.
+const (
+	// VerifRoleAuto uses the role the real newSessionTracker decided.
+	VerifRoleAuto = 0
+	// VerifRoleOfferer forces the offerer role (listens for the quic handshake).
+	VerifRoleOfferer = 1
+	// VerifRoleAnswerer forces the answerer role (dials the quic handshake).
+	VerifRoleAnswerer = 2
+)
+
+// VerifExecuteLink builds a WebRTC transport for privKey with the real
+// constructor, a session tracker for remotePeerID with the real
+// newSessionTracker, and runs the real executeLink over dcRwc (which stands in
+// for the opened data channel). Returns the role used and the executeLink error.
+func VerifExecuteLink(
+	ctx context.Context,
+	le *logrus.Entry,
+	privKey crypto.PrivKey,
+	remotePeerID peer.ID,
+	role int,
+	dcRwc datachannel.ReadWriteCloser,
+	handler transport.TransportHandler,
+) (offerer bool, err error) {
+	w, err := NewWebRTC(ctx, le, nil, &Config{}, privKey, handler)
+	if err != nil {
+		return false, err
+	}
+	_, sess := w.newSessionTracker(remotePeerID.String())
+	switch role {
+	case VerifRoleOfferer:
+		sess.offerer = true
+	case VerifRoleAnswerer:
+		sess.offerer = false
+	}
+	return sess.offerer, sess.executeLink(ctx, dcRwc)
+}
